@@ -31,7 +31,7 @@ ENGINE = {'name': 'pp',
                   'error text of io.EOF / io.ErrUnexpectedEOF is used to classify a library parse error as "input ended" vs "rejected"'],
  'modelled': ['github.com/mastercactapus/proxyprotocol v0.0.4: Parse/parseV1/parseV2 (accepted language), HeaderV1/HeaderV2 WriteTo + FromConn, Conn.RemoteAddr/LocalAddr fallback',
               'fmt.Sscanf("PROXY %s %s %s %d %d\\r\\n") on ASCII input; net.ParseIP (netip.parseIPv4Fields, parseIPv6); net.IP.String / netip RFC 5952 text',
-              'modules/l4proxyprotocol/handler.go: Provision (rules), tidyRules (sort + in-place compaction), newConn, Handle, GetConn',
+              'modules/l4proxyprotocol/handler.go: Provision (rules; an allow entry is CIDR notation or a bare address = single-host range, the model takes the networks of that reference reading and CTidy compares them with h.rules), tidyRules (sort + in-place compaction), newConn, Handle, GetConn',
               'layer4/connection.go: WrapConnection (replacer keys), net.IPNet.Contains',
               'not modelled here: bufio/Connection.Wrap byte-stream layering (C01), header timeout deadlines, Caddyfile parsing (C15)'],
  'assumptions': ['v1 lines are ASCII: multi-byte Unicode blanks (U+0085, U+00A0, ...) that Sscanf also treats as spaces are not generated',
